@@ -263,8 +263,13 @@ def finish(prop, tier, seed, mod, merged, findings, wall, cfg, work, replay=Fals
         reasons.append("none of the property's anchored code ranges was executed by the workload")
     total_mon = sum(merged["monitor_evals"].values()) or 1
     nerr = sum(merged["monitor_errors"].values())
-    if nerr > max(3, 0.01 * total_mon):
-        reasons.append(f"{nerr} monitor/workload errors (see evidence.monitor_error_samples)")
+    nwork = sum(v for k, v in merged["monitor_errors"].items() if k.startswith("workload["))
+    if nwork:
+        # an exception nobody expected left a case function: a defect of the library the case did not foresee, or of the case itself -
+        # either way those cases were not judged
+        reasons.append(f"{nwork} workload cases ended in an unexpected exception (see evidence.monitor_error_samples)")
+    elif nerr > max(3, 0.001 * total_mon):
+        reasons.append(f"{nerr} monitor errors (see evidence.monitor_error_samples)")
 
     # replay files for violations
     rdir = Path(os.environ.get("PVM_REPLAY_DIR") or (ROOT / "replays")) / prop
